@@ -3,6 +3,7 @@ CONSTANTS
   Count = 4
   Kind = "window"
   MaxRolls = 6
+  MaxWipes = 0
 INIT HInit
 NEXT HNext
 INVARIANTS WindowLaw ActiveGone OutsideUntouched RemoveOnly NoDup Emit
